@@ -57,6 +57,8 @@ struct Host {
     /// ZST harnesses: what the guest offered / what the host answered
     z_offered: usize,
     z_k: usize,
+    /// the host never answers BLOCKED (harnesses about consecutive operations)
+    no_block: bool,
     wh: u32,
     rh: u32,
     // write side
@@ -92,6 +94,7 @@ static mut H: Host = Host {
     elem_size: 1,
     z_offered: 0,
     z_k: 0,
+    no_block: false,
     wh: 0,
     rh: 0,
     write_in_progress: false,
@@ -188,7 +191,7 @@ unsafe fn h_start_write(h: u32, ptr: *const u8, n: usize) -> u32 {
     // any further stream.write on it traps (`trap_if(e.state != IDLE)`)
     assert!(!H.reader_dropped, "stream.write on an end whose previous write already answered DROPPED (host traps)");
     let kind: u32 = kani::any();
-    kani::assume(kind == COMPLETED || kind == DROPPED || kind == BLOCKED);
+    kani::assume(kind == COMPLETED || kind == DROPPED || (kind == BLOCKED && !H.no_block));
     if kind == BLOCKED {
         H.write_in_progress = true;
         return BLOCKED;
@@ -238,7 +241,7 @@ unsafe fn h_start_read(h: u32, ptr: *mut u8, n: usize) -> u32 {
     mt::G.expect_ptr = core::ptr::null_mut();
     assert!(!H.writer_dropped, "stream.read on an end whose previous read already answered DROPPED (host traps)");
     let kind: u32 = kani::any();
-    kani::assume(kind == COMPLETED || kind == DROPPED || kind == BLOCKED);
+    kani::assume(kind == COMPLETED || kind == DROPPED || (kind == BLOCKED && !H.no_block));
     if kind == BLOCKED {
         H.read_in_progress = true;
         return BLOCKED;
@@ -1214,16 +1217,18 @@ unsafe fn write_twice<T: Item, const LEN: usize>() {
     let mut cx = Context::from_waker(Waker::noop());
     let handles = h_new();
     H.elem_size = T::SIZE;
+    // both rendezvous are answered at once (COMPLETED(k) / DROPPED(k)): blocking,
+    // events and cancellation of a single write are the other harnesses' subject
+    H.no_block = true;
     let mut tx = RawStreamWriter::new((handles >> 32) as u32, T::OPS);
 
-    // first write: one poll; if the host blocks, cancel() decides
     let (res1, buf) = {
         let mut f = pin!(tx.write(items::<T, LEN>()));
         match f.as_mut().poll(&mut cx) {
             Poll::Ready(x) => x,
             Poll::Pending => {
-                pending_is_registered();
-                f.as_mut().cancel()
+                assert!(false, "harness: host does not block here");
+                return;
             }
         }
     };
@@ -1242,8 +1247,8 @@ unsafe fn write_twice<T: Item, const LEN: usize>() {
             match f.as_mut().poll(&mut cx) {
                 Poll::Ready(x) => x,
                 Poll::Pending => {
-                    pending_is_registered();
-                    f.as_mut().cancel()
+                    assert!(false, "harness: host does not block here");
+                    return;
                 }
             }
         };
@@ -1288,14 +1293,15 @@ fn c19_read2_u8() {
         install_task(&mut t1, &mut t2);
         let mut cx = Context::from_waker(Waker::noop());
         let handles = h_new();
+        H.no_block = true;
         let mut rx = RawStreamReader::new(handles as u32, OpsU8);
         let (res1, v) = {
             let mut f = pin!(rx.read(Vec::<u8>::with_capacity(2)));
             match f.as_mut().poll(&mut cx) {
                 Poll::Ready(x) => x,
                 Poll::Pending => {
-                    pending_is_registered();
-                    f.as_mut().cancel()
+                    assert!(false, "harness: host does not block here");
+                    return;
                 }
             }
         };
@@ -1314,8 +1320,8 @@ fn c19_read2_u8() {
                     match f.as_mut().poll(&mut cx) {
                         Poll::Ready(x) => x,
                         Poll::Pending => {
-                            pending_is_registered();
-                            f.as_mut().cancel()
+                            assert!(false, "harness: host does not block here");
+                            return;
                         }
                     }
                 };
